@@ -50,7 +50,7 @@ func corrupt(t *simrt.Tape, rc *RunCtx, m *SshdMsg, next *SshdMsg) (line string,
 		pid = "99999999999999999999999"
 	}
 	toks := strings.Split(msg, " ")
-	k := t.Choose(14, "corruption")
+	k := t.Choose(16, "corruption")
 	switch k {
 	case 0:
 		kind = "none"
@@ -125,9 +125,20 @@ func corrupt(t *simrt.Tape, rc *RunCtx, m *SshdMsg, next *SshdMsg) (line string,
 		} else {
 			msg = string(b)
 		}
-	default:
+	case 13:
 		kind = "keyword-only"
 		msg = sshdKeywords[t.Choose(len(sshdKeywords), "kw.which")]
+	default:
+		// the line starts with its own keyword (plus junk) and then holds the complete
+		// message: every unanchored pattern matches at a non-zero offset
+		kind = "keyword-then-full-message"
+		own := ""
+		for _, k := range sshdKeywords {
+			if strings.HasPrefix(msg, k) && len(k) > len(own) {
+				own = k
+			}
+		}
+		msg = own + []string{"-ish ", "/x ", ": ", " "}[t.Choose(4, "sep")] + msg
 	}
 	rc.Sim.Count("line.corrupt_sshd." + kind)
 	return pid + " " + msg + "\n", kind
